@@ -39,6 +39,18 @@ type rowHandle struct {
 	err  Value
 }
 
+// ctxErr: context.Canceled if the (modelled) context has been cancelled, else nil.
+func (in *Interp) ctxErr(v Value) Value {
+	if iv, ok := v.(IfaceVal); ok {
+		if no, ok := iv.V.(*NativeObj); ok {
+			if st, ok := no.Data.(*ctxState); ok && st.cancelled {
+				return in.globalSentinel("context", "Canceled")
+			}
+		}
+	}
+	return nil
+}
+
 func (in *Interp) sqlType(name string) types.Type { return in.findType("database/sql", name) }
 
 func (in *Interp) newHandle(typeName string, ext interface{}) *Cell {
@@ -343,6 +355,9 @@ func registerSQL(ex *Explorer) {
 		return doExec(in, a[0].(*Cell), str(a[1]), a[2].(SliceVal))
 	}, "(*database/sql.DB).Exec", "(*database/sql.Tx).Exec")
 	reg(func(in *Interp, fn *ssa.Function, a []Value) Value {
+		if e := in.ctxErr(a[1]); e != nil {
+			return TupleVal{IfaceVal{}, e}
+		}
 		return doExec(in, a[0].(*Cell), str(a[2]), a[3].(SliceVal))
 	}, "(*database/sql.DB).ExecContext", "(*database/sql.Tx).ExecContext")
 	q := func(ctx bool) Intercept {
@@ -350,6 +365,10 @@ func registerSQL(ex *Explorer) {
 			k := 1
 			if ctx {
 				k = 2
+				// database/sql checks the context before it runs the statement
+				if e := in.ctxErr(a[1]); e != nil {
+					return TupleVal{(*Cell)(nil), e}
+				}
 			}
 			rows, err := doQuery(in, a[0].(*Cell), str(a[k]), a[k+1].(SliceVal))
 			if err != nil {
@@ -365,6 +384,9 @@ func registerSQL(ex *Explorer) {
 			k := 1
 			if ctx {
 				k = 2
+				if e := in.ctxErr(a[1]); e != nil {
+					return in.newHandle("Row", &rowHandle{err: e})
+				}
 			}
 			rows, err := doQuery(in, a[0].(*Cell), str(a[k]), a[k+1].(SliceVal))
 			rh := &rowHandle{err: err}
